@@ -33,7 +33,10 @@ fn parse<'a>(tok: &mut std::slice::Iter<'a, &'a str>, w: &mut Walk) -> Option<No
             let kind = *tok.next()?;
             let content = unhex(tok.next()?)?;
             // octet contents go through the builder's own `content_type()`, text contents through `header()`
-            let mut b = if kind == "b" || kind == "Q" {
+            let mut b = if kind == "Q" {
+                // a Content-Type set before is replaced by the later `content_type()`, not kept
+                SinglePart::builder().header(ContentType::TEXT_PLAIN).content_type(ContentType::parse(&ctype).ok()?)
+            } else if kind == "b" {
                 SinglePart::builder().content_type(ContentType::parse(&ctype).ok()?)
             } else {
                 SinglePart::builder().header(ContentType::parse(&ctype).ok()?)
